@@ -81,28 +81,30 @@ WblOn == W > 0
 Ranges == <<R, 3 * R, 9 * R>>        \* ExponentialBlockRanges(MinBlockDuration, 10, 3) cut at MaxBlockDuration = 9R
 
 \* Scripts (cfg files cannot hold tuples).  A token names the kind of the next call and optionally what it must achieve:
-\*   N NewAppender; A Append (Ai accepted in order, Ao accepted out of order, Ax rejected); C Commit; B Rollback;
-\*   D Delete (Dd deletes something); H Compact (Hb writes at least one head block); O CompactOOO (Oo with out-of-order data);
+\*   N NewAppender; A Append (Ai accepted in order at the next time of the axis above the head's maximum, Aj accepted in
+\*   order at the first time that makes the head compactable, Ao accepted out of order, Ax rejected); C Commit; B Rollback;
+\*   D Delete (Dd deletes something, Db deletes something from a block); H Compact (Hb writes at least one head block); O CompactOOO (Oo with out-of-order data);
 \*   T CleanTombstones (Tt rewrites a block); M Mmap; R Reopen
 KindOf(tok) ==
-   CASE tok = "N" -> "NewAppender" [] tok \in {"A", "Ai", "Ao", "Ax"} -> "Append" [] tok = "C" -> "Commit" [] tok = "B" -> "Rollback"
-     [] tok \in {"D", "Dd"} -> "Delete" [] tok \in {"H", "Hb"} -> "Compact" [] tok \in {"O", "Oo"} -> "CompactOOO"
+   CASE tok = "N" -> "NewAppender" [] tok \in {"A", "Ai", "Aj", "Ao", "Ax"} -> "Append" [] tok = "C" -> "Commit" [] tok = "B" -> "Rollback"
+     [] tok \in {"D", "Dd", "Db"} -> "Delete" [] tok \in {"H", "Hb"} -> "Compact" [] tok \in {"O", "Oo"} -> "CompactOOO"
      [] tok \in {"T", "Tt"} -> "CleanTombstones" [] tok = "M" -> "Mmap" [] tok = "R" -> "Reopen"
 NC == <<"N", "Ai", "C">>
 NCC == <<"N", "Ai", "Ai", "C">>
+NJC == <<"N", "Aj", "C">>
 NOC == <<"N", "Ao", "C">>
 Script ==
   CASE ScriptName = "free" -> <<>>
     \* torn record of a big series record with acknowledged out-of-order data in the WBL (KF-C03-1, KF-C03-2)
     [] ScriptName = "k1" -> NC \o NOC \o NC
     \* restarts (one WAL segment each), head compaction with checkpoint and segment removal, again (old checkpoint removed)
-    [] ScriptName = "s1" -> NC \o <<"R">> \o NCC \o <<"R">> \o NC \o <<"R">> \o NC \o <<"Hb">> \o NC \o <<"R">> \o NC \o <<"Hb", "R">>
+    [] ScriptName = "s1" -> NC \o <<"R">> \o NCC \o <<"R">> \o NC \o <<"R">> \o NJC \o <<"Hb">> \o NJC \o <<"R">> \o NJC \o <<"Hb", "R">>
     \* head compaction, delete over head and block, compaction, tombstone cleaning, restart
-    [] ScriptName = "s2" -> NC \o NCC \o <<"Hb">> \o NC \o <<"Dd", "H", "Tt">> \o NC \o <<"R">>
+    [] ScriptName = "s2" -> NC \o NCC \o NJC \o <<"Hb">> \o NC \o <<"Db", "H", "Tt">> \o NC \o <<"R">>
     \* out-of-order data: WBL, out-of-order compaction, head compaction with out-of-order head and vertical block compaction
-    [] ScriptName = "s3" -> NC \o NC \o NOC \o <<"Oo">> \o NC \o NOC \o <<"Hb">> \o NC \o <<"Hb", "R">>
+    [] ScriptName = "s3" -> NC \o NC \o NOC \o <<"Oo">> \o NC \o NOC \o NJC \o <<"Hb">> \o NJC \o <<"Hb", "R">>
     \* rollback of a new series, rejected append, commit
-    [] ScriptName = "s4" -> <<"N", "Ai", "B", "N", "Ax", "Ai", "C", "R">> \o NC \o <<"N", "Ai", "B", "Hb">>
+    [] ScriptName = "s4" -> NC \o NC \o <<"N", "Ax", "Ai", "C", "N", "Ai", "B", "R">> \o NC \o <<"N", "Ai", "B">> \o NJC \o <<"Hb">>
 
 -----------------------------------------------------------------------------
 (* Files *)
@@ -404,10 +406,13 @@ ScriptOK(kind) == IF Script = <<>> THEN TRUE ELSE (nops < Len(Script) /\ KindOf(
 ScriptAim ==
   IF Script = <<>> THEN TRUE ELSE
   LET tok == Script[nops + 1]  r == hist'[Len(hist')] IN
-  CASE tok = "Ai" -> r.ret = "ok" /\ ~r.ooo
+  CASE tok = "Ai" -> r.ret = "ok" /\ ~r.ooo /\ \A t \in Times : ~(t > hMax /\ t < r.t) /\ (hInit => r.t > hMax)
+    [] tok = "Aj" -> r.ret = "ok" /\ ~r.ooo /\ hInit /\ r.t > hMax /\ r.t - hMin > (R \div 2) * 3
+                     /\ \A t \in Times : ~(t > hMax /\ t - hMin > (R \div 2) * 3 /\ t < r.t)
     [] tok = "Ao" -> r.ret = "ok" /\ r.ooo
     [] tok = "Ax" -> r.ret # "ok"
     [] tok = "Dd" -> stored' # stored
+    [] tok = "Db" -> blk' # blk
     [] tok = "Hb" -> r.nblocks > 0
     [] tok = "Oo" -> \E s \in Series : OOOAll(s) # {}
     [] tok = "Tt" -> prog' # <<>>
